@@ -350,7 +350,7 @@ pub fn canon_stdin() {
         let mut bad = false;
         while i < toks.len() {
             if toks[i] == "nl" && i + 2 < toks.len() {
-                // `nl H(lexeme) U`: lexeme = decimal [ 'e' sign? exponent ]; evaluate as parse_number does:
+                // `nl H(lexeme) U`: lexeme = decimal [ 'e' sign? exponent ]; evaluate as parse_number does (decimal text + exponent, parsed once):
                 // format!("{decimal}{exp}") with decimal and exponent printed through f64 Display
                 let lex = unh(toks[i + 1]).unwrap_or_default();
                 let (dec, exp) = match lex.find('e') {
@@ -358,16 +358,18 @@ pub fn canon_stdin() {
                     None => (lex.clone(), None),
                 };
                 match dec.parse::<f64>() {
-                    Ok(d) => {
+                    Ok(_) => {
+                        // the decimal part goes into the final text AS WRITTEN (one rounding, fix in /repo); only the
+                        // exponent digits are printed through f64 Display
                         let txt = match exp {
-                            None => Some(format!("{d}")),
+                            None => Some(dec.clone()),
                             Some(e) => {
                                 let (sign, digits) = if e.starts_with('+') || e.starts_with('-') {
                                     (e[..1].to_string(), e[1..].to_string())
                                 } else {
                                     (String::new(), e)
                                 };
-                                digits.parse::<f64>().ok().map(|x| format!("{d}e{sign}{x}"))
+                                digits.parse::<f64>().ok().map(|x| format!("{dec}e{sign}{x}"))
                             }
                         };
                         match txt.and_then(|t| t.parse::<f64>().ok()) {
